@@ -64,7 +64,7 @@ static const char* CONT_NAMES[] = {"gdeque",           "FixedSizeRing", "FixedSi
                                    "concurrent_gslist", "InsertBag"};
 // chunk sizes (InsertBag: block size in bytes, 0 = page sized blocks)
 static const std::vector<int> CHUNKS[NCONT] = {{1, 2, 3, 4, 64}, {1, 2, 3, 4, 7, 64}, {1, 2, 3, 16}, {1, 2, 3, 16},
-                                               {1, 2, 3, 16},    {1, 2, 3, 16},       {0, 64, 128}};
+                                               {1, 2, 3, 16},    {1, 2, 3, 16},       {0, 64, 128, 256}};
 constexpr int MAX_OPS     = 400;
 constexpr int MAX_PREFILL = 140;
 
@@ -91,8 +91,10 @@ struct Ctx {
   long n_moves    = 0;
   long n_ops      = 0;
   bool trace      = false;
+  std::set<std::string> notes; // reached operation shapes (labels)
 };
 static Ctx X;
+static inline void note(const char* n) { X.notes.insert(n); }
 
 static void set_labels() {
   label("cont", X.subject);
@@ -105,7 +107,11 @@ static void set_labels() {
   label("emplace_mid", (long)(X.n_emplmid > 0));
   label("refused_full", (long)(X.n_refused > 0));
   label("moved", (long)(X.n_moves > 0));
-  nontrivial(X.crossed && X.removals > 0);
+  bool nt = X.crossed && X.removals > 0;
+  label("cont_chunk_nt", std::string(X.subject) + "/" + std::to_string(X.chunk) + "/" + (X.elem ? "T" : "i") + ":" + (nt ? "nt" : "triv"));
+  for (auto& n : X.notes)
+    label("reached_" + n, 1);
+  nontrivial(nt);
 }
 
 [[noreturn]] static void failv(const char* raw, const char* fmt, ...) __attribute__((format(printf, 2, 3)));
@@ -472,6 +478,18 @@ static void run_gdeque(const Case& c) {
       tr("emplace(pos %zu of %zu, %lld)%s", pos, m.size(), (long long)v, from_end ? " iterator from end" : "");
       if (pos > 0 && pos < m.size())
         ++X.n_emplmid;
+      if (blk && pos != 0) {
+        bool inner = it.offset != 0;
+        if (blk->full())
+          note(blk->next ? "gdeque_split_full_nonlast_block" : inner ? "gdeque_split_full_last_block" : "gdeque_split_full_last_block_at_its_begin");
+        else if (blk->next)
+          note(inner ? "gdeque_emplace_inside_nonfull_nonlast_block" : "gdeque_emplace_at_begin_of_nonfull_nonlast_block");
+        else
+          note("gdeque_emplace_in_nonfull_last_block");
+      } else if (pos == 0 && blk)
+        note(blk->full() ? "gdeque_emplace_begin_first_block_full" : "gdeque_emplace_begin_first_block_nonfull");
+      else if (!blk)
+        note(m.empty() ? "gdeque_emplace_into_empty" : "gdeque_emplace_at_end");
       auto r = d->emplace(it, E::make(v));
       m.insert(m.begin() + pos, v);
       int64_t got = E::val(*r);
@@ -588,7 +606,1249 @@ static void run_gdeque(const Case& c) {
   reg_final<T>();
 }
 
-//@@FAMILIES@@
+// ========================================================= FixedSizeRing
+// kinds: 0 push_back 1 push_front 2 pop_back 3 pop_front 4 emplace(pos)
+//        5 emplace_back/front 6 clear 7 extract_front/back 8 write
+//        9 const access 10 const reverse traversal 11 rebuild from range
+//        12 iterator arithmetic 13.. = kind % 13
+static const char* RING_OPS[] = {"push_back", "push_front", "pop_back", "pop_front", "emplace", "emplace_bf", "clear",
+                                 "extract",   "write",      "const",    "const_rev", "range",   "iter_arith"};
+
+// const rbegin()/rend(): run in a forked child, because the known defect is
+// undefined behaviour that the sanitizer turns into an abort
+template <class Rg, class T>
+static char forked_const_reverse(const Rg& r, const std::deque<int64_t>& m, int* sig) {
+  fflush(nullptr);
+  int fds[2];
+  *sig = 0;
+  if (pipe(fds))
+    return '?';
+  pid_t pid = fork();
+  if (pid < 0) {
+    close(fds[0]);
+    close(fds[1]);
+    return '?';
+  }
+  if (pid == 0) {
+    for (int s : {SIGABRT, SIGSEGV, SIGBUS, SIGFPE, SIGILL, SIGTRAP})
+      signal(s, SIG_DFL);
+    int dn = open("/dev/null", O_WRONLY);
+    if (dn >= 0)
+      dup2(dn, 2);
+    close(fds[0]);
+    alarm(10);
+    char res = 'Y';
+    size_t i = m.size();
+    auto it = r.rbegin();
+    auto e  = r.rend();
+    for (; !(it == e); ++it) {
+      if (i == 0) {
+        res = 'L';
+        break;
+      }
+      --i;
+      if (El<T>::val(*it) != m[i]) {
+        res = 'V';
+        break;
+      }
+    }
+    if (res == 'Y' && i != 0)
+      res = 'S';
+    ssize_t w = write(fds[1], &res, 1);
+    (void)w;
+    _exit(0);
+  }
+  close(fds[1]);
+  char res  = 0;
+  ssize_t n = read(fds[0], &res, 1);
+  close(fds[0]);
+  int st = 0;
+  waitpid(pid, &st, 0);
+  if (n != 1) {
+    *sig = WIFSIGNALED(st) ? WTERMSIG(st) : -WEXITSTATUS(st);
+    return 0;
+  }
+  return res;
+}
+
+template <class Rg, class T, unsigned N>
+static void ring_check(Rg& r, const std::deque<int64_t>& m, bool with_const) {
+  typedef El<T> E;
+  CK(r.size() == m.size(), "size", "size() = %u, model %zu %s", r.size(), m.size(), show(m).c_str());
+  CK(r.empty() == m.empty(), "empty", "empty() = %d, model size %zu", (int)r.empty(), m.size());
+  CK(r.full() == (m.size() == N), "full", "full() = %d, model size %zu of %u", (int)r.full(), m.size(), N);
+  if (!m.empty()) {
+    int64_t f = E::val(r.front()), b = E::val(r.back());
+    CK(f == m.front(), "front", "front() = %lld, model %lld %s", (long long)f, (long long)m.front(), show(m).c_str());
+    CK(b == m.back(), "back", "back() = %lld, model %lld %s", (long long)b, (long long)m.back(), show(m).c_str());
+    for (size_t i = 0; i < m.size(); ++i) {
+      int64_t v = E::val(r.getAt((unsigned)i));
+      CK(v == m[i], "getAt", "getAt(%zu) = %lld, model %lld %s", i, (long long)v, (long long)m[i], show(m).c_str());
+    }
+  }
+  {
+    size_t i = 0;
+    for (auto it = r.begin(), e = r.end(); it != e; ++it, ++i) {
+      CK(i < m.size(), "fwd-long", "forward traversal yields more than the %zu elements of the model", m.size());
+      int64_t v = E::val(*it);
+      CK(v == m[i], "fwd", "forward traversal element %zu = %lld, model %lld %s", i, (long long)v, (long long)m[i], show(m).c_str());
+    }
+    CK(i == m.size(), "fwd-short", "forward traversal yields %zu elements, model %zu", i, m.size());
+  }
+  {
+    size_t i = m.size();
+    auto it = r.end(), b = r.begin();
+    while (it != b) {
+      CK(i > 0, "bwd-long", "backward traversal yields more than the %zu elements of the model", m.size());
+      --it;
+      --i;
+      int64_t v = E::val(*it);
+      CK(v == m[i], "bwd", "backward traversal element %zu = %lld, model %lld %s", i, (long long)v, (long long)m[i], show(m).c_str());
+    }
+    CK(i == 0, "bwd-short", "backward traversal stops %zu elements before the front", i);
+  }
+  {
+    size_t i = m.size();
+    for (auto it = r.rbegin(), e = r.rend(); it != e; ++it) {
+      CK(i > 0, "rev-long", "reverse traversal yields more than the %zu elements of the model", m.size());
+      --i;
+      int64_t v = E::val(*it);
+      CK(v == m[i], "rev", "reverse traversal element %zu = %lld, model %lld %s", i, (long long)v, (long long)m[i], show(m).c_str());
+    }
+    CK(i == 0, "rev-short", "reverse traversal stops %zu elements before the front", i);
+  }
+  {
+    ptrdiff_t dist = r.end() - r.begin();
+    CK(dist == (ptrdiff_t)m.size(), "distance", "end() - begin() = %td, model size %zu", dist, m.size());
+  }
+  if (with_const) {
+    const Rg& cr = r;
+    CK(cr.size() == m.size() && cr.empty() == m.empty() && cr.full() == (m.size() == N), "const-size", "const size() = %u, model %zu", cr.size(),
+       m.size());
+    if (!m.empty()) {
+      CK(E::val(cr.front()) == m.front() && E::val(cr.back()) == m.back(), "const-front-back", "const front()/back() = %lld/%lld, model %lld/%lld",
+         (long long)E::val(cr.front()), (long long)E::val(cr.back()), (long long)m.front(), (long long)m.back());
+      for (size_t i = 0; i < m.size(); ++i)
+        CK(E::val(cr.getAt((unsigned)i)) == m[i], "const-getAt", "const getAt(%zu) = %lld, model %lld", i, (long long)E::val(cr.getAt((unsigned)i)),
+           (long long)m[i]);
+    }
+    size_t i = 0;
+    for (auto it = cr.begin(), e = cr.end(); it != e; ++it, ++i) {
+      CK(i < m.size(), "const-fwd-long", "const forward traversal yields more than %zu elements", m.size());
+      CK(E::val(*it) == m[i], "const-fwd", "const forward traversal element %zu = %lld, model %lld", i, (long long)E::val(*it), (long long)m[i]);
+    }
+    CK(i == m.size(), "const-fwd-short", "const forward traversal yields %zu elements, model %zu", i, m.size());
+  }
+}
+
+template <class T, unsigned N>
+static void run_ring(const Case& c) {
+  typedef galois::FixedSizeRing<T, N> Rg;
+  typedef El<T> E;
+  std::unique_ptr<Rg> r(new Rg());
+  std::deque<int64_t> m;
+  unsigned mstart = 0; // model of the physical start slot (only for the labels)
+  bool crev_done  = false;
+  auto after = [&](bool with_const = false) {
+    X.maxsize = std::max(X.maxsize, m.size());
+    if (mstart + m.size() > N || X.n_refused > 0)
+      X.crossed = true; // contents wrap around the end of the storage, or an insertion hit the bound
+    ring_check<Rg, T, N>(*r, m, with_const);
+    reg_check<T>(m.size());
+  };
+  X.op = "prefill";
+  for (int64_t i = 0; i < c[F_PREFILL] && m.size() < N; ++i) {
+    r->push_back(E::make(i + 1));
+    m.push_back(i + 1);
+  }
+  after();
+  size_t nops = std::min<size_t>(c.f.size() - F_COUNT, MAX_OPS);
+  for (size_t s = 0; s < nops; ++s) {
+    Op o   = decode(c.f[F_COUNT + s], (int)s);
+    int k  = o.kind % 13;
+    X.step = (int)s;
+    X.op   = RING_OPS[k];
+    ++X.n_ops;
+    int64_t v = value_for((int)s);
+    bool full = m.size() == N;
+    switch (k) {
+    case 0:
+    case 1: {
+      bool back = k == 0;
+      tr("push_%s(%lld)%s%s", back ? "back" : "front", (long long)v, (o.var & 1) ? " lvalue" : "", full ? " [full]" : "");
+      T* p;
+      if (o.var & 1) {
+        T t = E::make(v);
+        p   = back ? r->push_back(t) : r->push_front(t);
+      } else
+        p = back ? r->push_back(E::make(v)) : r->push_front(E::make(v));
+      CK((p != nullptr) == !full, "push-ret", "push_%s on a ring holding %zu of %u returned %s", back ? "back" : "front", m.size(), N,
+         p ? "a pointer" : "null");
+      if (full) {
+        ++X.n_refused;
+        break;
+      }
+      CK(E::val(*p) == v, "push-ret", "push_%s(%lld) returned a pointer to %lld", back ? "back" : "front", (long long)v, (long long)E::val(*p));
+      if (back)
+        m.push_back(v);
+      else {
+        m.push_front(v);
+        mstart = (mstart + N - 1) % N;
+      }
+      break;
+    }
+    case 2:
+      if (m.empty())
+        break; // precondition
+      tr("pop_back");
+      r->pop_back();
+      m.pop_back();
+      ++X.removals;
+      break;
+    case 3:
+      if (m.empty())
+        break;
+      tr("pop_front");
+      r->pop_front();
+      m.pop_front();
+      mstart = (mstart + 1) % N;
+      ++X.removals;
+      break;
+    case 4: {
+      size_t pos = (size_t)o.a % (m.size() + 1);
+      int sel    = (int)((o.var >> 1) & 3);
+      if (sel == 1)
+        pos = 0;
+      else if (sel == 2)
+        pos = m.size();
+      auto it = (o.var & 1) ? r->end() - (ptrdiff_t)(m.size() - pos) : r->begin() + (ptrdiff_t)pos;
+      tr("emplace(pos %zu of %zu, %lld)%s", pos, m.size(), (long long)v, full ? " [full]" : "");
+      T* p = r->emplace(it, E::make(v));
+      CK((p != nullptr) == !full, "emplace-ret", "emplace on a ring holding %zu of %u returned %s", m.size(), N, p ? "a pointer" : "null");
+      if (full) {
+        ++X.n_refused;
+        break;
+      }
+      CK(E::val(*p) == v, "emplace-ret", "emplace(pos %zu, %lld) returned a pointer to %lld", pos, (long long)v, (long long)E::val(*p));
+      if (pos > 0 && pos < m.size()) {
+        ++X.n_emplmid;
+        note(mstart + m.size() >= N ? "ring_emplace_mid_wrapped" : "ring_emplace_mid_linear");
+      }
+      if (pos == 0)
+        mstart = (mstart + N - 1) % N;
+      m.insert(m.begin() + pos, v);
+      break;
+    }
+    case 5: {
+      bool back = !(o.var & 1);
+      tr("emplace_%s(%lld)%s", back ? "back" : "front", (long long)v, full ? " [full]" : "");
+      T* p = back ? r->emplace_back(v) : r->emplace_front(v);
+      CK((p != nullptr) == !full, "push-ret", "emplace_%s on a ring holding %zu of %u returned %s", back ? "back" : "front", m.size(), N,
+         p ? "a pointer" : "null");
+      if (full) {
+        ++X.n_refused;
+        break;
+      }
+      CK(E::val(*p) == v, "push-ret", "emplace_%s(%lld) returned a pointer to %lld", back ? "back" : "front", (long long)v, (long long)E::val(*p));
+      if (back)
+        m.push_back(v);
+      else {
+        m.push_front(v);
+        mstart = (mstart + N - 1) % N;
+      }
+      break;
+    }
+    case 6:
+      tr("clear");
+      if (!m.empty())
+        ++X.removals;
+      r->clear();
+      m.clear();
+      mstart = 0;
+      break;
+    case 7: {
+      bool back = !(o.var & 1);
+      tr("extract_%s", back ? "back" : "front");
+      {
+        galois::optional<T> x = back ? r->extract_back() : r->extract_front();
+        CK(x.is_initialized() == !m.empty(), "extract", "extract_%s on a ring holding %zu returned %s", back ? "back" : "front", m.size(),
+           x.is_initialized() ? "a value" : "nothing");
+        if (!m.empty()) {
+          int64_t want = back ? m.back() : m.front();
+          CK(E::val(x.get()) == want, "extract", "extract_%s returned %lld, model %lld", back ? "back" : "front", (long long)E::val(x.get()),
+             (long long)want);
+          if (back)
+            m.pop_back();
+          else {
+            m.pop_front();
+            mstart = (mstart + 1) % N;
+          }
+          ++X.removals;
+        }
+      }
+      break;
+    }
+    case 8: {
+      if (m.empty())
+        break;
+      size_t pos = (size_t)o.a % m.size();
+      int sel    = (int)(o.var & 3);
+      tr("write %lld at %zu via %s", (long long)v, pos, sel == 0 ? "getAt" : sel == 1 ? "iterator" : sel == 2 ? "front" : "back");
+      if (sel == 0)
+        r->getAt((unsigned)pos) = E::make(v);
+      else if (sel == 1)
+        r->begin()[(ptrdiff_t)pos] = E::make(v);
+      else if (sel == 2) {
+        pos        = 0;
+        r->front() = E::make(v);
+      } else {
+        pos       = m.size() - 1;
+        r->back() = E::make(v);
+      }
+      m[pos] = v;
+      break;
+    }
+    case 9:
+      tr("const access");
+      after(true);
+      continue;
+    case 10: {
+      if (crev_done)
+        break; // one forked check per case
+      if (shape_refused(K_RING_CREV))
+        break;
+      crev_done = true;
+      tr("const reverse traversal (forked)");
+      int sig  = 0;
+      char res = forked_const_reverse<Rg, T>(*r, m, &sig);
+      if (res == '?')
+        break; // fork failed: nothing learnt
+      CK(res != 0, "const-rbegin", "traversal with the const rbegin()/rend() of a ring holding %zu elements died (%s %d)", m.size(),
+         sig > 0 ? "signal" : "exit", sig > 0 ? sig : -sig);
+      CK(res == 'Y', "const-rbegin", "traversal with the const rbegin()/rend() differs from the model (%s)",
+         res == 'L' ? "too long" : res == 'S' ? "too short" : "wrong value");
+      break;
+    }
+    case 11: {
+      tr("rebuild from a range of %zu", m.size());
+      std::vector<T> vals;
+      vals.reserve(m.size());
+      for (auto x : m)
+        vals.push_back(E::make(x));
+      r.reset(new Rg(vals.begin(), vals.end()));
+      mstart = 0;
+      if (El<T>::tracked) {
+        if (R.bad)
+          failv(R.key, "%s", R.msg);
+        CK(R.live.size() == 2 * m.size(), "live-count", "range constructor from %zu elements left %zu element objects alive (expected %zu)",
+           m.size(), R.live.size(), 2 * m.size());
+      }
+      break;
+    }
+    default: {
+      // iterator arithmetic on two positions
+      size_t i = (size_t)o.a % (m.size() + 1), j = (size_t)(o.a / 32) % (m.size() + 1);
+      tr("iterator arithmetic %zu %zu", i, j);
+      auto bi = r->begin() + (ptrdiff_t)i, bj = r->begin() + (ptrdiff_t)j;
+      CK(bj - bi == (ptrdiff_t)j - (ptrdiff_t)i, "iter-arith", "(begin()+%zu) - (begin()+%zu) = %td", j, i, bj - bi);
+      CK((bi < bj) == (i < j) && (bi == bj) == (i == j), "iter-arith", "comparison of begin()+%zu and begin()+%zu: < %d, == %d", i, j, (int)(bi < bj),
+         (int)(bi == bj));
+      auto e = r->end();
+      e -= (ptrdiff_t)(m.size() - i);
+      CK(e == bi, "iter-arith", "end() - %zu != begin() + %zu", m.size() - i, i);
+      auto w = bi;
+      w += (ptrdiff_t)j - (ptrdiff_t)i;
+      CK(w == bj, "iter-arith", "(begin()+%zu) += %td is not begin()+%zu", i, (ptrdiff_t)j - (ptrdiff_t)i, j);
+      if (j < m.size())
+        CK(E::val(*w) == m[j] && E::val(r->begin()[(ptrdiff_t)j]) == m[j], "iter-arith", "begin()[%zu] = %lld, model %lld", j,
+           (long long)E::val(r->begin()[(ptrdiff_t)j]), (long long)m[j]);
+    }
+    }
+    after();
+  }
+  X.step = (int)nops;
+  X.op   = "final";
+  after(true);
+  X.op = "destroy";
+  r.reset();
+  reg_final<T>();
+}
+
+// ================================= FixedSizeBag / ConcurrentFixedSizeBag
+// "Unordered collection of bounded size": contents are compared as a
+// multiset; front()/back() name the element the next pop removes (the class'
+// own extract_front relies on that); rbegin..rend is the reverse of begin..end.
+// kinds: 0 push_back 1 push_front 2 pop_back 3 pop_front 4 emplace_back/front
+//        5 extract_front/back 6 clear 7 write through front() 8 const access
+//        9 rebuild from range 10 push many 11 pop many 12.. = kind % 12
+static const char* FSBAG_OPS[] = {"push_back", "push_front", "pop_back", "pop_front", "emplace", "extract",
+                                  "clear",     "write",      "const",    "range",     "push_many", "pop_many"};
+
+template <class It, class T>
+static std::vector<int64_t> collect_bounded(It it, It e, size_t bound, const char* key, const char* what) {
+  std::vector<int64_t> out;
+  for (; it != e; ++it) {
+    CK(out.size() < bound, key, "%s yields more than the %zu elements of the model", what, bound);
+    out.push_back(El<T>::val(*it));
+  }
+  return out;
+}
+static bool same_multiset(std::vector<int64_t> a, std::vector<int64_t> b) {
+  std::sort(a.begin(), a.end());
+  std::sort(b.begin(), b.end());
+  return a == b;
+}
+
+template <class B, class T, unsigned N>
+static void fsbag_check(B& b, const std::vector<int64_t>& m, bool with_const) {
+  typedef El<T> E;
+  CK(b.size() == m.size(), "size", "size() = %u, model %zu %s", (unsigned)b.size(), m.size(), show(m).c_str());
+  CK(b.empty() == m.empty(), "empty", "empty() = %d, model size %zu", (int)b.empty(), m.size());
+  CK(b.full() == (m.size() == N), "full", "full() = %d, model size %zu of %u", (int)b.full(), m.size(), N);
+  if (!m.empty()) {
+    int64_t f = E::val(b.front()), k = E::val(b.back());
+    CK(f == m.back() && k == m.back(), "front", "front()/back() = %lld/%lld, the element the next pop removes is %lld %s", (long long)f, (long long)k,
+       (long long)m.back(), show(m).c_str());
+  }
+  auto fw = collect_bounded<typename B::iterator, T>(b.begin(), b.end(), m.size(), "fwd-long", "forward traversal");
+  CK(same_multiset(fw, m), "fwd", "forward traversal yields %s, model (as multiset) %s", show(fw).c_str(), show(m).c_str());
+  auto bw = collect_bounded<typename B::reverse_iterator, T>(b.rbegin(), b.rend(), m.size(), "rev-long", "reverse traversal");
+  std::reverse(bw.begin(), bw.end());
+  CK(bw == fw, "rev", "reverse traversal is not the reverse of the forward traversal: %s vs %s", show(bw).c_str(), show(fw).c_str());
+  if (with_const) {
+    const B& cb = b;
+    CK(cb.size() == m.size() && cb.empty() == m.empty() && cb.full() == (m.size() == N), "const-size", "const size() = %u, model %zu",
+       (unsigned)cb.size(), m.size());
+    if (!m.empty())
+      CK(E::val(cb.front()) == m.back() && E::val(cb.back()) == m.back(), "const-front", "const front()/back() = %lld/%lld, model %lld",
+         (long long)E::val(cb.front()), (long long)E::val(cb.back()), (long long)m.back());
+    auto cf = collect_bounded<typename B::const_iterator, T>(cb.begin(), cb.end(), m.size(), "const-fwd-long", "const forward traversal");
+    CK(cf == fw, "const-fwd", "const forward traversal %s differs from the non-const one %s", show(cf).c_str(), show(fw).c_str());
+    auto cr = collect_bounded<typename B::const_reverse_iterator, T>(cb.rbegin(), cb.rend(), m.size(), "const-rev-long", "const reverse traversal");
+    std::reverse(cr.begin(), cr.end());
+    CK(cr == fw, "const-rev", "const reverse traversal is not the reverse of the forward traversal");
+  }
+}
+
+template <class B, class T, bool Conc>
+struct FsBagOps {
+  static T* emplace(B& b, bool back, int64_t v) { return back ? b.emplace_back(v) : b.emplace_front(v); }
+  static bool extract(B& b, bool back, int64_t& out) {
+    galois::optional<T> x = back ? b.extract_back() : b.extract_front();
+    if (x.is_initialized())
+      out = El<T>::val(x.get());
+    return x.is_initialized();
+  }
+};
+template <class B, class T>
+struct FsBagOps<B, T, true> { // not available for the concurrent variant: use push / front+pop
+  static T* emplace(B& b, bool back, int64_t v) {
+    T t = El<T>::make(v);
+    return back ? b.push_back(t) : b.push_front(t);
+  }
+  static bool extract(B&, bool, int64_t&) { return false; }
+};
+
+template <class T, unsigned N, bool Conc>
+static void run_fsbag(const Case& c) {
+  typedef galois::FixedSizeBagBase<T, N, Conc> B;
+  typedef El<T> E;
+  std::unique_ptr<B> b(new B());
+  std::vector<int64_t> m;
+  auto after = [&](bool with_const = false) {
+    X.maxsize = std::max(X.maxsize, m.size());
+    if (m.size() == N)
+      X.crossed = true; // filled to the bound
+    fsbag_check<B, T, N>(*b, m, with_const);
+    reg_check<T>(m.size());
+  };
+  // known finding: the concurrent pop destroys slot `top` instead of `top-1`
+  // (only observable with a non-trivial destructor)
+  auto pop_refused = [&]() { return Conc && E::tracked && !m.empty() && shape_refused(K_CFSBAG_POP); };
+  X.op = "prefill";
+  for (int64_t i = 0; i < c[F_PREFILL] && m.size() < N; ++i) {
+    T t = E::make(i + 1);
+    b->push_back(t);
+    m.push_back(i + 1);
+  }
+  after();
+  size_t nops = std::min<size_t>(c.f.size() - F_COUNT, MAX_OPS);
+  for (size_t s = 0; s < nops; ++s) {
+    Op o   = decode(c.f[F_COUNT + s], (int)s);
+    int k  = o.kind % 12;
+    X.step = (int)s;
+    X.op   = FSBAG_OPS[k];
+    ++X.n_ops;
+    int64_t v = value_for((int)s);
+    bool full = m.size() == N;
+    switch (k) {
+    case 0:
+    case 1:
+    case 4: {
+      bool back = k == 0 || (k == 4 && !(o.var & 1));
+      tr("%s_%s(%lld)%s", k == 4 ? "emplace" : "push", back ? "back" : "front", (long long)v, full ? " [full]" : "");
+      T* p;
+      if (k == 4)
+        p = FsBagOps<B, T, Conc>::emplace(*b, back, v);
+      else if ((o.var & 1) || Conc) {
+        T t = E::make(v);
+        p   = back ? b->push_back(t) : b->push_front(t);
+      } else
+        p = back ? b->push_back(E::make(v)) : b->push_front(E::make(v));
+      CK((p != nullptr) == !full, "push-ret", "push on a bag holding %zu of %u returned %s", m.size(), N, p ? "a pointer" : "null");
+      if (full) {
+        ++X.n_refused;
+        break;
+      }
+      CK(E::val(*p) == v, "push-ret", "push(%lld) returned a pointer to %lld", (long long)v, (long long)E::val(*p));
+      m.push_back(v);
+      break;
+    }
+    case 2:
+    case 3: {
+      if (pop_refused())
+        break;
+      tr("pop_%s%s", k == 2 ? "back" : "front", m.empty() ? " [empty]" : "");
+      bool ok = k == 2 ? b->pop_back() : b->pop_front();
+      CK(ok == !m.empty(), "pop-ret", "pop on a bag holding %zu elements returned %d", m.size(), (int)ok);
+      if (!m.empty()) {
+        m.pop_back();
+        ++X.removals;
+      }
+      break;
+    }
+    case 5: {
+      if (Conc) { // front() + pop_front() is what a client of the concurrent variant writes
+        if (m.empty() || pop_refused())
+          break;
+        tr("front() + pop_front()");
+        int64_t got = E::val(b->front());
+        bool ok     = b->pop_front();
+        CK(ok && got == m.back(), "extract", "front()+pop_front() gave %lld/%d, model %lld", (long long)got, (int)ok, (long long)m.back());
+        m.pop_back();
+        ++X.removals;
+        break;
+      }
+      bool back = !(o.var & 1);
+      tr("extract_%s%s", back ? "back" : "front", m.empty() ? " [empty]" : "");
+      int64_t got = 0;
+      bool has    = FsBagOps<B, T, Conc>::extract(*b, back, got);
+      CK(has == !m.empty(), "extract", "extract on a bag holding %zu elements returned %s", m.size(), has ? "a value" : "nothing");
+      if (has) {
+        CK(got == m.back(), "extract", "extract returned %lld, model %lld", (long long)got, (long long)m.back());
+        m.pop_back();
+        ++X.removals;
+      }
+      break;
+    }
+    case 6:
+      tr("clear");
+      if (!m.empty())
+        ++X.removals;
+      b->clear();
+      m.clear();
+      break;
+    case 7:
+      if (m.empty())
+        break;
+      tr("front() = %lld", (long long)v);
+      if (o.var & 1)
+        b->front() = E::make(v);
+      else
+        b->back() = E::make(v);
+      m.back() = v;
+      break;
+    case 8:
+      tr("const access");
+      after(true);
+      continue;
+    case 9: {
+      tr("rebuild from a range of %zu", m.size());
+      std::vector<T> vals;
+      vals.reserve(m.size());
+      for (auto x : m)
+        vals.push_back(E::make(x));
+      b.reset(new B(vals.begin(), vals.end()));
+      if (E::tracked) {
+        if (R.bad)
+          failv(R.key, "%s", R.msg);
+        CK(R.live.size() == 2 * m.size(), "live-count", "range constructor from %zu elements left %zu element objects alive (expected %zu)",
+           m.size(), R.live.size(), 2 * m.size());
+      }
+      break;
+    }
+    case 10: {
+      size_t n = 1 + (size_t)o.a % (N + 1);
+      tr("push %zu", n);
+      for (size_t i = 0; i < n; ++i) {
+        T t  = E::make(value_for((int)s, (int)i));
+        T* p = b->push_back(t);
+        CK((p != nullptr) == (m.size() < N), "push-ret", "push on a bag holding %zu of %u returned %s", m.size(), N, p ? "a pointer" : "null");
+        if (p)
+          m.push_back(value_for((int)s, (int)i));
+        else
+          ++X.n_refused;
+      }
+      break;
+    }
+    default: {
+      size_t n = std::min<size_t>(m.size(), 1 + (size_t)o.a % (N + 1));
+      if (n == 0 || pop_refused())
+        break;
+      tr("pop %zu", n);
+      for (size_t i = 0; i < n; ++i) {
+        bool ok = b->pop_front();
+        CK(ok, "pop-ret", "pop on a bag holding %zu elements returned false", m.size());
+        m.pop_back();
+        ++X.removals;
+      }
+    }
+    }
+    after();
+  }
+  X.step = (int)nops;
+  X.op   = "final";
+  after(true);
+  X.op = "destroy";
+  b.reset();
+  reg_final<T>();
+}
+
+// =========================================== gslist / concurrent_gslist
+// model: a stack (std::forward_list with push_front/pop_front).  gslist must
+// iterate in list order; the concurrent variant documents an unspecified
+// iteration order (multiset comparison).
+// kinds: 0 push_front 1 emplace_front 2 pop_front(heap) 3 pop_front(promise)
+//        4 clear(heap) 5 clear(promise) 6 move ctor/assign 7 const access
+//        8 write through front() 9 push many 10 pop many 11.. = kind % 11
+static const char* GSLIST_OPS[] = {"push_front", "emplace_front", "pop_front", "pop_front_promise", "clear", "clear_promise",
+                                   "move",       "const",         "write",     "push_many",         "pop_many"};
+
+template <class L, class T, bool Conc>
+struct GslistOps {
+  template <class H>
+  static void emplace(L& l, H& h, int64_t v) {
+    l.emplace_front(h, v);
+  }
+};
+template <class L, class T>
+struct GslistOps<L, T, true> {
+  template <class H>
+  static void emplace(L& l, H& h, int64_t v) {
+    T t = El<T>::make(v);
+    l.push_front(h, t);
+  }
+};
+
+// model of the block structure (front block last); only used to recognise the
+// known-finding shapes, never for the verdict
+struct BlockModel {
+  std::vector<unsigned> blocks;
+  unsigned N;
+  void push() {
+    if (blocks.empty() || blocks.back() == N)
+      blocks.push_back(1);
+    else
+      ++blocks.back();
+  }
+  void pop() {
+    while (!blocks.empty()) {
+      if (blocks.back() > 0) {
+        --blocks.back();
+        return;
+      }
+      blocks.pop_back();
+    }
+  }
+  bool first_block_empty() const { return !blocks.empty() && blocks.back() == 0; }
+};
+
+template <class T, unsigned N, bool Conc>
+static void run_gslist(const Case& c) {
+  typedef galois::gslist_base<T, (int)N, Conc> L;
+  typedef El<T> E;
+  typedef typename L::promise_to_dealloc Promise;
+  galois::runtime::FixedSizeHeap heap(sizeof(typename L::block_type));
+  std::unique_ptr<L> l(new L());
+  std::vector<int64_t> m; // back() is the front of the list
+  BlockModel bm;
+  bm.N = N;
+  auto check = [&](bool with_const) {
+    CK(l->empty() == m.empty(), "empty", "empty() = %d, model size %zu %s", (int)l->empty(), m.size(), show(m).c_str());
+    std::vector<int64_t> want(m.rbegin(), m.rend());
+    auto fw = collect_bounded<typename L::iterator, T>(l->begin(), l->end(), m.size(), "fwd-long", "forward traversal");
+    if (Conc)
+      CK(same_multiset(fw, want), "fwd", "traversal yields %s, model (as multiset) %s", show(fw).c_str(), show(want).c_str());
+    else
+      CK(fw == want, "fwd", "traversal yields %s, model %s", show(fw).c_str(), show(want).c_str());
+    // known finding: front() looks into the first block even when a pop
+    // emptied it and the elements are in the following blocks
+    bool front_ok = !m.empty();
+    if (front_ok && bm.first_block_empty() && shape_refused(K_GSLIST_FRONT))
+      front_ok = false;
+    if (front_ok) {
+      if (bm.blocks.size() > 1)
+        note(bm.blocks.back() == N ? "gslist_front_multiblock_first_full" : "gslist_front_multiblock_first_partial");
+      int64_t f = E::val(l->front());
+      CK(f == m.back(), "front", "front() = %lld, model %lld %s", (long long)f, (long long)m.back(), show(want).c_str());
+    }
+    if (with_const) {
+      const L& cl = *l;
+      CK(cl.empty() == m.empty(), "const-empty", "const empty() = %d, model size %zu", (int)cl.empty(), m.size());
+      auto cf = collect_bounded<typename L::const_iterator, T>(cl.begin(), cl.end(), m.size(), "const-fwd-long", "const traversal");
+      CK(cf == fw, "const-fwd", "const traversal %s differs from the non-const one %s", show(cf).c_str(), show(fw).c_str());
+      if (front_ok) {
+        int64_t f = E::val(cl.front());
+        CK(f == m.back(), "const-front", "const front() = %lld, model %lld", (long long)f, (long long)m.back());
+      }
+    }
+  };
+  auto after = [&](bool with_const = false) {
+    X.maxsize = std::max(X.maxsize, m.size());
+    if (m.size() > N)
+      X.crossed = true;
+    check(with_const);
+    reg_check<T>(m.size());
+  };
+  // known finding inherited from the concurrent fixed-size bag (block type of
+  // the concurrent list): its pop destroys the wrong slot
+  auto pop_refused = [&]() { return Conc && E::tracked && !m.empty() && shape_refused(K_CFSBAG_POP); };
+  auto push = [&](int64_t v, bool lvalue) {
+    if (lvalue || Conc) {
+      T t = E::make(v);
+      l->push_front(heap, t);
+    } else
+      l->push_front(heap, E::make(v));
+    m.push_back(v);
+    bm.push();
+  };
+  X.op = "prefill";
+  for (int64_t i = 0; i < c[F_PREFILL]; ++i)
+    push(i + 1, false);
+  after();
+  size_t nops = std::min<size_t>(c.f.size() - F_COUNT, MAX_OPS);
+  for (size_t s = 0; s < nops; ++s) {
+    Op o   = decode(c.f[F_COUNT + s], (int)s);
+    int k  = o.kind % 11;
+    X.step = (int)s;
+    X.op   = GSLIST_OPS[k];
+    ++X.n_ops;
+    int64_t v = value_for((int)s);
+    switch (k) {
+    case 0:
+      tr("push_front(%lld)%s", (long long)v, (o.var & 1) ? " lvalue" : "");
+      push(v, o.var & 1);
+      break;
+    case 1:
+      tr("emplace_front(%lld)", (long long)v);
+      GslistOps<L, T, Conc>::emplace(*l, heap, v);
+      m.push_back(v);
+      bm.push();
+      break;
+    case 2:
+    case 3: {
+      if (pop_refused())
+        break;
+      tr("pop_front(%s)%s", k == 2 ? "heap" : "promise_to_dealloc", m.empty() ? " [empty]" : "");
+      bool ok = k == 2 ? l->pop_front(heap) : l->pop_front(Promise());
+      CK(ok == !m.empty(), "pop-ret", "pop_front on a list holding %zu elements returned %d", m.size(), (int)ok);
+      bm.pop();
+      if (!m.empty()) {
+        m.pop_back();
+        ++X.removals;
+      }
+      break;
+    }
+    case 4:
+    case 5:
+      tr("clear(%s)", k == 4 ? "heap" : "promise_to_dealloc");
+      if (!m.empty())
+        ++X.removals;
+      if (k == 4)
+        l->clear(heap);
+      else
+        l->clear(Promise());
+      m.clear();
+      bm.blocks.clear();
+      break;
+    case 6: {
+      ++X.n_moves;
+      if (o.var & 1) {
+        tr("move construct");
+        std::unique_ptr<L> n(new L(std::move(*l)));
+        // moved-from: valid but unspecified; must be clearable and reusable
+        l->clear(heap);
+        CK(l->empty(), "moved-from", "moved-from list is not empty after clear()");
+        {
+          T t = E::make(7);
+          l->push_front(heap, t);
+        }
+        CK(!l->empty() && E::val(l->front()) == 7, "moved-from", "moved-from list unusable after clear()+push_front");
+        l->clear(heap);
+        l = std::move(n);
+      } else {
+        int pre = (int)((o.var >> 1) & 3);
+        tr("move assign into a list holding %d elements", pre);
+        std::unique_ptr<L> n(new L());
+        for (int i = 0; i < pre; ++i) {
+          T t = E::make(900 + i);
+          n->push_front(heap, t);
+        }
+        *n = std::move(*l);
+        l->clear(heap); // whatever the moved-from list holds now
+        l = std::move(n);
+      }
+      break;
+    }
+    case 7:
+      tr("const access");
+      after(true);
+      continue;
+    case 8:
+      if (m.empty() || (bm.first_block_empty() && shape_refused(K_GSLIST_FRONT)))
+        break;
+      tr("front() = %lld", (long long)v);
+      l->front() = E::make(v);
+      m.back()   = v;
+      break;
+    case 9: {
+      size_t n = 1 + (size_t)o.a % (N + 1);
+      tr("push %zu", n);
+      for (size_t i = 0; i < n; ++i)
+        push(value_for((int)s, (int)i), false);
+      break;
+    }
+    default: {
+      size_t n = std::min<size_t>(m.size(), 1 + (size_t)o.a % (N + 1));
+      if (n == 0 || pop_refused())
+        break;
+      tr("pop %zu", n);
+      for (size_t i = 0; i < n; ++i) {
+        bool ok = (o.var & 1) ? l->pop_front(heap) : l->pop_front(Promise());
+        CK(ok, "pop-ret", "pop_front on a list holding %zu elements returned false", m.size());
+        bm.pop();
+        m.pop_back();
+        ++X.removals;
+      }
+    }
+    }
+    after();
+  }
+  X.step = (int)nops;
+  X.op   = "final";
+  after(true);
+  X.op = "destroy";
+  if (nops & 1)
+    l->clear(heap);
+  l.reset(); // the destructor destroys the remaining elements (memory stays with the caller)
+  reg_final<T>();
+}
+
+// ============================================================ InsertBag
+// "Unordered collection": contents compared as a multiset; pop() removes the
+// last element pushed by this thread, or throws std::out_of_range ("the
+// number of consecutive pops supported is implementation dependent").
+// kinds: 0 push 1 push_back 2 emplace/emplace_back 3 pop 4 clear
+//        5 clear_serial 6 move ctor/assign 7 swap 8 const/local iteration
+//        9 push many 10 pop many 11.. = kind % 11
+static const char* IBAG_OPS[] = {"push", "push_back", "emplace", "pop", "clear", "clear_serial", "move", "swap", "const", "push_many", "pop_many"};
+
+template <class T>
+struct BagModel {
+  std::vector<int64_t> m;
+  // block structure seen through the addresses push returns (only used to
+  // recognise the known-finding shape and for the non-triviality label)
+  const T* last_end = nullptr; // one past the most recent element
+  size_t in_last    = 0;       // elements in the block that receives pushes
+  size_t blocks     = 0;
+  void pushed(const T* p) {
+    if (blocks > 0 && p == last_end)
+      ++in_last;
+    else {
+      ++blocks;
+      in_last = 1;
+    }
+    last_end = p + 1;
+  }
+  void popped() {
+    --in_last;
+    --last_end;
+  }
+  void cleared() {
+    m.clear();
+    last_end = nullptr;
+    in_last = blocks = 0;
+  }
+};
+
+template <class B, class T>
+static void ibag_check(B& b, const BagModel<T>& bm, bool with_const) {
+  const std::vector<int64_t>& m = bm.m;
+  auto fw = collect_bounded<typename B::iterator, T>(b.begin(), b.end(), m.size(), "fwd-long", "traversal");
+  CK(same_multiset(fw, m), "fwd", "traversal yields %s, model (as multiset) %s", show(fw).c_str(), show(m).c_str());
+  CK(b.empty() == m.empty(), "empty", "empty() = %d, model size %zu %s", (int)b.empty(), m.size(), show(m).c_str());
+  if (with_const) {
+    const B& cb = b;
+    // (InsertBag::begin() const / end() const do not compile -- they pass a
+    // pointer to the const per-thread heads to a constructor taking a
+    // non-const one -- so const traversal cannot be part of the harness)
+    // the calling thread pushed everything: its local range is the whole bag
+    auto lf = collect_bounded<typename B::local_iterator, T>(b.local_begin(), b.local_end(), m.size(), "local-long", "local traversal");
+    CK(lf == fw, "local", "local_begin()..local_end() yields %s, the whole bag is %s", show(lf).c_str(), show(fw).c_str());
+    CK(cb.empty() == m.empty(), "const-empty", "const empty() = %d, model size %zu", (int)cb.empty(), m.size());
+  }
+}
+
+template <class T, unsigned BS>
+static void run_insertbag(const Case& c) {
+  typedef galois::InsertBag<T, BS> B;
+  typedef El<T> E;
+  galois::setActiveThreads((unsigned)c[F_THREADS]);
+  std::unique_ptr<B> b(new B());
+  BagModel<T> bm;
+  auto after = [&](bool with_const = false) {
+    X.maxsize = std::max(X.maxsize, bm.m.size());
+    if (bm.blocks > 1)
+      X.crossed = true;
+    ibag_check<B, T>(*b, bm, with_const);
+    reg_check<T>(bm.m.size());
+  };
+  auto push = [&](B& bag, BagModel<T>& mod, int64_t v, int how) {
+    T* p;
+    switch (how & 7) {
+    case 0:
+      p = &bag.push(E::make(v));
+      break;
+    case 1: {
+      T t = E::make(v);
+      p   = &bag.push(t);
+      break;
+    }
+    case 2:
+      p = &bag.push_back(E::make(v));
+      break;
+    case 3: {
+      T t = E::make(v);
+      p   = &bag.push_back(t);
+      break;
+    }
+    case 4:
+    case 5:
+      p = &bag.emplace(v);
+      break;
+    default:
+      p = &bag.emplace_back(v);
+    }
+    CK(E::val(*p) == v, "push-ret", "push(%lld) returned a reference to %lld", (long long)v, (long long)E::val(*p));
+    mod.m.push_back(v);
+    mod.pushed(p);
+  };
+  // returns false when the pop was refused (known finding excluded)
+  auto pop = [&](B& bag, BagModel<T>& mod) {
+    // known finding: a pop that empties the block leaves the empty block in
+    // the chain; iteration and empty() do not expect it
+    if (mod.in_last == 1 && shape_refused(K_BAG_POP))
+      return false;
+    bool threw = false;
+    try {
+      bag.pop();
+    } catch (const std::out_of_range&) {
+      threw = true; // allowed: implementation dependent number of pops
+    }
+    tr("   pop%s (block held %zu)", threw ? " threw out_of_range" : "", mod.in_last);
+    note(threw ? "ibag_pop_threw" : mod.blocks > 1 ? "ibag_pop_ok_multiblock" : "ibag_pop_ok");
+    if (!threw) {
+      mod.m.pop_back();
+      if (mod.in_last > 0)
+        mod.popped();
+      else
+        mod.last_end = nullptr; // popped out of an earlier block: structure unknown from here
+      ++X.removals;
+    }
+    return true;
+  };
+  X.op = "prefill";
+  for (int64_t i = 0; i < c[F_PREFILL]; ++i)
+    push(*b, bm, i + 1, 0);
+  after();
+  size_t nops = std::min<size_t>(c.f.size() - F_COUNT, MAX_OPS);
+  for (size_t s = 0; s < nops; ++s) {
+    Op o   = decode(c.f[F_COUNT + s], (int)s);
+    int k  = o.kind % 11;
+    X.step = (int)s;
+    X.op   = IBAG_OPS[k];
+    ++X.n_ops;
+    int64_t v = value_for((int)s);
+    switch (k) {
+    case 0:
+      tr("push(%lld)", (long long)v);
+      push(*b, bm, v, (int)(o.var & 1));
+      break;
+    case 1:
+      tr("push_back(%lld)", (long long)v);
+      push(*b, bm, v, 2 + (int)(o.var & 1));
+      break;
+    case 2:
+      tr("emplace(%lld)", (long long)v);
+      push(*b, bm, v, 4 + (int)(o.var & 3));
+      break;
+    case 3:
+      if (bm.m.empty())
+        break; // precondition: this thread pushed something
+      tr("pop");
+      pop(*b, bm);
+      break;
+    case 4:
+    case 5:
+      tr("%s", k == 4 ? "clear" : "clear_serial");
+      if (!bm.m.empty())
+        ++X.removals;
+      if (k == 4)
+        b->clear();
+      else
+        b->clear_serial();
+      bm.cleared();
+      break;
+    case 6: {
+      ++X.n_moves;
+      if (o.var & 1) {
+        tr("move construct");
+        std::unique_ptr<B> n(new B(std::move(*b)));
+        b->clear(); // moved-from: valid but unspecified
+        CK(b->empty() && b->begin() == b->end(), "moved-from", "moved-from bag is not empty after clear()");
+        {
+          BagModel<T> tmp;
+          push(*b, tmp, 7, 0);
+          auto fw = collect_bounded<typename B::iterator, T>(b->begin(), b->end(), 1, "moved-from", "traversal of the reused moved-from bag");
+          CK(fw.size() == 1 && fw[0] == 7, "moved-from", "moved-from bag unusable after clear()+push");
+        }
+        b = std::move(n);
+      } else {
+        int pre = (int)((o.var >> 1) & 3);
+        tr("move assign into a bag holding %d elements", pre);
+        std::unique_ptr<B> n(new B());
+        BagModel<T> tmp;
+        for (int i = 0; i < pre; ++i)
+          push(*n, tmp, 900 + i, 0);
+        *n = std::move(*b);
+        b  = std::move(n);
+      }
+      break;
+    }
+    case 7: {
+      int pre   = (int)((o.var >> 1) & 7);
+      bool keep = o.var & 1;
+      tr("swap with a bag holding %d elements%s", pre, keep ? "" : " and swap back");
+      B other;
+      BagModel<T> om;
+      for (int i = 0; i < pre; ++i)
+        push(other, om, value_for((int)s, i), 0);
+      b->swap(other);
+      ibag_check<B, T>(*b, om, false);
+      ibag_check<B, T>(other, bm, false);
+      if (keep) {
+        std::swap(bm, om);
+        if (!om.m.empty())
+          ++X.removals; // the previous contents are destroyed with `other`
+      } else
+        other.swap(*b);
+      break; // `other` is destroyed with what it holds now
+    }
+    case 8:
+      tr("const/local traversal");
+      after(true);
+      continue;
+    case 9: {
+      size_t n = 1 + (size_t)o.a % 12;
+      tr("push %zu", n);
+      for (size_t i = 0; i < n; ++i)
+        push(*b, bm, value_for((int)s, (int)i), (int)(o.var + i));
+      break;
+    }
+    default: {
+      size_t n = std::min<size_t>(bm.m.size(), 1 + (size_t)o.a % 12);
+      tr("pop up to %zu", n);
+      for (size_t i = 0; i < n; ++i) {
+        size_t before = bm.m.size();
+        if (!pop(*b, bm) || bm.m.size() == before)
+          break; // refused or threw: stop
+      }
+    }
+    }
+    after();
+  }
+  X.step = (int)nops;
+  X.op   = "final";
+  after(true);
+  X.op = "destroy";
+  b.reset();
+  reg_final<T>();
+}
+
+// ================================================================ driver
+static int nchunks(int cont) { return (int)CHUNKS[cont].size(); }
+
+void normalize_case(Case& c) {
+  if (c.f.size() < (size_t)F_COUNT)
+    c.f.resize(F_COUNT, 0);
+  auto mod = [](int64_t v, int64_t n) { return (int64_t)((uint64_t)v % (uint64_t)n); };
+  c[F_CONT]    = mod(c[F_CONT], NCONT);
+  c[F_CHUNK]   = mod(c[F_CHUNK], nchunks((int)c[F_CONT]));
+  c[F_ELEM]    = mod(c[F_ELEM], 2);
+  c[F_THREADS] = c[F_CONT] == C_INSERTBAG ? 1 + mod(c[F_THREADS] - 1, 3) : 1;
+  c[F_PREFILL] = mod(c[F_PREFILL], MAX_PREFILL + 1);
+}
+
+// op kind weights per family (index = kind)
+static const std::vector<int> WEIGHTS[NCONT] = {
+    /* gdeque   */ {8, 6, 4, 4, 9, 2, 1, 1, 1, 1, 2, 2},
+    /* ring     */ {7, 6, 4, 4, 8, 2, 1, 2, 1, 1, 1, 1, 2},
+    /* fsbag    */ {7, 5, 4, 4, 2, 2, 1, 1, 1, 1, 2, 2},
+    /* cfsbag   */ {7, 5, 4, 4, 2, 2, 1, 1, 1, 1, 2, 2},
+    /* gslist   */ {8, 3, 4, 3, 1, 1, 1, 1, 1, 2, 2},
+    /* cgslist  */ {8, 3, 4, 3, 1, 1, 1, 1, 1, 2, 2},
+    /* insertbag*/ {6, 3, 3, 6, 1, 1, 1, 1, 1, 2, 2}};
+
+Case generate() {
+  using namespace rc;
+  Case c;
+  c.f.assign(F_COUNT, 0);
+  int cont     = *gen::weightedElement<int>({{6, C_GDEQUE}, {5, C_RING}, {2, C_FSBAG}, {2, C_CFSBAG}, {3, C_GSLIST}, {3, C_CGSLIST}, {4, C_INSERTBAG}});
+  c[F_CONT]    = cont;
+  c[F_CHUNK]   = *uni(0, nchunks(cont));
+  c[F_ELEM]    = *uni(0, 2);
+  c[F_THREADS] = cont == C_INSERTBAG ? *uni(1, 4) : 1;
+  int chunk    = CHUNKS[cont][c[F_CHUNK]];
+  // prefill: none, or around one / two chunk boundaries
+  int bound = chunk;
+  if (cont == C_INSERTBAG) // elements per block: BlockSize / sizeof(T) minus the header slots
+    bound = chunk == 0 ? 12 : c[F_ELEM] ? chunk / 8 - 5 : chunk / 4 - 9;
+  switch (*gen::weightedElement<int>({{4, 0}, {3, 1}, {2, 2}})) {
+  case 0:
+    c[F_PREFILL] = 0;
+    break;
+  case 1:
+    c[F_PREFILL] = std::min<int64_t>(MAX_PREFILL, *uni<int64_t>(0, bound + 3));
+    break;
+  default:
+    c[F_PREFILL] = std::min<int64_t>(MAX_PREFILL, *uni<int64_t>(bound, 2 * bound + 3));
+  }
+  std::vector<int> table; // kind by cumulative weight; index 0 (shrink target) is kind 0
+  for (size_t k = 0; k < WEIGHTS[cont].size(); ++k)
+    table.insert(table.end(), WEIGHTS[cont][k], (int)k);
+  auto kindgen = gen::map(uni<int>(0, (int)table.size()), [table](int i) { return table[i]; });
+  // known finding without state: the const reverse iterators of the ring
+  bool no_crev = cont == C_RING && excluded(K_RING_CREV);
+  auto opgen   = gen::map(gen::tuple(kindgen, gen::inRange<int64_t>(0, 1024), uni<int64_t>(0, 8)),
+                        [](const std::tuple<int, int64_t, int64_t>& t) { return (int64_t)std::get<0>(t) + 16 * (std::get<1>(t) + 1024 * std::get<2>(t)); });
+  std::vector<int64_t> ops = *gen::scale(3.0, gen::container<std::vector<int64_t>>(opgen));
+  for (auto x : ops) {
+    if (no_crev && (x & 15) == 10) {
+      count_excluded();
+      continue;
+    }
+    c.f.push_back(x);
+  }
+  return c;
+}
+
+std::string finding_key(const Case& c, const std::string& failkey) {
+  if (!failkey.empty() && failkey[0] == '@') // attributed to a known-defect shape by run()
+    return failkey.substr(1);
+  int cont = c.f.size() > (size_t)F_CONT ? (int)((uint64_t)c[F_CONT] % NCONT) : 0;
+  return std::string("C14/") + CONT_NAMES[cont] + "/" + failkey;
+}
+
+#define CHUNK_DISPATCH(FN, ...)                                                                                        \
+  if (elem == 0)                                                                                                       \
+    FN<int, __VA_ARGS__>(c);                                                                                           \
+  else                                                                                                                 \
+    FN<Tracked, __VA_ARGS__>(c);
+
+static void __attribute__((noinline)) dispatch(const Case& c) {
+  int cont = (int)c[F_CONT], chunk = CHUNKS[cont][c[F_CHUNK]], elem = (int)c[F_ELEM];
+  switch (cont) {
+  case C_GDEQUE:
+    switch (chunk) {
+    case 1: CHUNK_DISPATCH(run_gdeque, 1) break;
+    case 2: CHUNK_DISPATCH(run_gdeque, 2) break;
+    case 3: CHUNK_DISPATCH(run_gdeque, 3) break;
+    case 4: CHUNK_DISPATCH(run_gdeque, 4) break;
+    default: CHUNK_DISPATCH(run_gdeque, 64)
+    }
+    break;
+  case C_RING:
+    switch (chunk) {
+    case 1: CHUNK_DISPATCH(run_ring, 1) break;
+    case 2: CHUNK_DISPATCH(run_ring, 2) break;
+    case 3: CHUNK_DISPATCH(run_ring, 3) break;
+    case 4: CHUNK_DISPATCH(run_ring, 4) break;
+    case 7: CHUNK_DISPATCH(run_ring, 7) break;
+    default: CHUNK_DISPATCH(run_ring, 64)
+    }
+    break;
+  case C_FSBAG:
+    switch (chunk) {
+    case 1: CHUNK_DISPATCH(run_fsbag, 1, false) break;
+    case 2: CHUNK_DISPATCH(run_fsbag, 2, false) break;
+    case 3: CHUNK_DISPATCH(run_fsbag, 3, false) break;
+    default: CHUNK_DISPATCH(run_fsbag, 16, false)
+    }
+    break;
+  case C_CFSBAG:
+    switch (chunk) {
+    case 1: CHUNK_DISPATCH(run_fsbag, 1, true) break;
+    case 2: CHUNK_DISPATCH(run_fsbag, 2, true) break;
+    case 3: CHUNK_DISPATCH(run_fsbag, 3, true) break;
+    default: CHUNK_DISPATCH(run_fsbag, 16, true)
+    }
+    break;
+  case C_GSLIST:
+    switch (chunk) {
+    case 1: CHUNK_DISPATCH(run_gslist, 1, false) break;
+    case 2: CHUNK_DISPATCH(run_gslist, 2, false) break;
+    case 3: CHUNK_DISPATCH(run_gslist, 3, false) break;
+    default: CHUNK_DISPATCH(run_gslist, 16, false)
+    }
+    break;
+  case C_CGSLIST:
+    switch (chunk) {
+    case 1: CHUNK_DISPATCH(run_gslist, 1, true) break;
+    case 2: CHUNK_DISPATCH(run_gslist, 2, true) break;
+    case 3: CHUNK_DISPATCH(run_gslist, 3, true) break;
+    default: CHUNK_DISPATCH(run_gslist, 16, true)
+    }
+    break;
+  default:
+    switch (chunk) {
+    case 0: CHUNK_DISPATCH(run_insertbag, 0) break;
+    case 64: CHUNK_DISPATCH(run_insertbag, 64) break;
+    case 128: CHUNK_DISPATCH(run_insertbag, 128) break;
+    default: CHUNK_DISPATCH(run_insertbag, 256)
+    }
+  }
+}
+
+void run(const Case& c0) {
+  Case c = c0;
+  normalize_case(c);
+  X         = Ctx();
+  X.subject = CONT_NAMES[c[F_CONT]];
+  X.chunk   = CHUNKS[c[F_CONT]][c[F_CHUNK]];
+  X.elem    = (int)c[F_ELEM];
+  X.trace   = getenv("VERIF_TRACE") != nullptr;
+  R.reset();
+  if (X.trace)
+    fprintf(stderr, "case: %s<%s,%d> prefill %lld threads %lld, %zu ops\n", X.subject, X.elem ? "Tracked" : "int", X.chunk, (long long)c[F_PREFILL],
+            (long long)c[F_THREADS], c.f.size() - F_COUNT);
+  if (setjmp(g_jb)) // an assert() inside Galois failed during the case
+    failv("assert", "%s", g_assert_msg);
+  g_jb_armed = true;
+  dispatch(c);
+  g_jb_armed = false;
+  set_labels();
+  vok();
+}
 
 } // namespace verif
 
